@@ -184,9 +184,12 @@ def _update_tree (force_dpid = None):
   # Now modify ports as needed
   try:
     change_count = 0
-    for sw, ports in tree.items():
-      con = core.openflow.getConnection(sw)
-      if con is None: continue # Must have disconnected
+    # Visit every connected switch, not just the ones with a link on the
+    # tree: a switch which has lost its last tree link (or which only has
+    # one-way links) needs its ports updated too.
+    for con in list(core.openflow.connections):
+      sw = con.dpid
+      ports = tree.get(sw, ())
       if con.connect_time is None: continue # Not fully connected
 
       if _hold_down:
